@@ -306,6 +306,7 @@ func (e *Exec) recordViolation(kind, label, detail string, m Model) {
 
 // Assert is the property obligation.
 func (e *Exec) Assert(c *Term, label string) {
+	e.assertSeen[label]++
 	if !e.replaying() || c.IsConst() {
 		e.eng.countObligation(e.h)
 	}
@@ -527,6 +528,7 @@ type PathResult struct {
 	Inconc    []string
 	FnSteps   map[*ssa.Function]int64
 	Stubs     map[string]int
+	Asserts   map[string]int
 	Pushed    int
 }
 
@@ -534,7 +536,7 @@ func (eng *Engine) runPath(sv *Solver, h *Harness, prefix []int64) (res PathResu
 	e := &Exec{eng: eng, h: h, tc: NewTermCtx(), sv: sv, prefix: prefix,
 		globals: map[*ssa.Global]*Value{}, pkgInit: map[*ssa.Package]bool{},
 		maxSteps: eng.maxSteps, covers: map[string]bool{}, fnSteps: map[*ssa.Function]int64{},
-		stubsHit: map[string]int{}, pool: map[*Value][]Value{}, hashes: map[*Value]*hashState{},
+		stubsHit: map[string]int{}, assertSeen: map[string]int{}, pool: map[*Value][]Value{}, hashes: map[*Value]*hashState{},
 		once: map[*Value]bool{}, oracle: map[string]int{}, oracleArg: map[string]Value{}, oracleArgs: map[string][]Value{}, unwind: eng.unwind, sizeBound: eng.sizeBound, trace: eng.trace}
 	e.emptyStr = &StrV{}
 	e.rtErrT = eng.rtErrT
@@ -572,6 +574,7 @@ func (eng *Engine) runPath(sv *Solver, h *Harness, prefix []int64) (res PathResu
 		res.Inconc = e.inconc
 		res.FnSteps = e.fnSteps
 		res.Stubs = e.stubsHit
+		res.Asserts = e.assertSeen
 		res.Pushed = e.pushed
 	}()
 	eng.injectGlobals(e)
